@@ -242,6 +242,48 @@ func (s *verSys) checkVerListing() ([]*engine.Violation, int64) {
 					break
 				}
 			}
+			// marker pairs naming existing versions, combined with every prefix/delimiter (also
+			// versions outside the prefix or inside a common prefix, and the id "null" a
+			// never-versioned bucket reports): the answer is 200 and contains at least every
+			// listed version of every key after the marker key, and the versions of the marker
+			// key that follow the marker version
+			if allV := s.w.ListVersions(s.bucket, ""); allV.Status == 200 && (d != "" || p != "" || s.m.Status == "") {
+				for _, e := range allV.Entries {
+					q := joinQ(base, drv.Q("key-marker", e.Key, "version-id-marker", e.ID))
+					pg := s.w.ListVersions(s.bucket, q)
+					evals++
+					if pg.Panic != "" {
+						bad("marker+filter", "panic@"+drv.PanicFrame(pg.Panic), "markers (%q,%q): %s", e.Key, e.ID, firstLine(pg.Panic))
+						break
+					}
+					if pg.Status != 200 {
+						bad("marker+filter", fmt.Sprintf("status=%d:%s", pg.Status, pg.Code), "markers (%q,%q) name an existing version", e.Key, e.ID)
+						break
+					}
+					got := map[string]bool{}
+					for _, pe := range pg.Entries {
+						got[verEntryKey(pe)] = true
+					}
+					missing := ""
+					after := false
+					for _, fe := range full.Entries {
+						if fe.Key == e.Key && fe.ID == e.ID {
+							after = true
+							continue
+						}
+						if fe.Key > e.Key || (fe.Key == e.Key && after) {
+							if !got[verEntryKey(fe)] {
+								missing = renderVer([]drv.VerEntry{fe})
+								break
+							}
+						}
+					}
+					if missing != "" && !pg.IsTruncated {
+						bad("marker+filter", "skipped", "markers (%q,%q): %s follows the marker in %s but is not returned: %s", e.Key, e.ID, missing, renderVer(full.Entries), renderVer(pg.Entries))
+						break
+					}
+				}
+			}
 			// client-invented marker pairs naming existing versions
 			if d == "" && p == "" && s.m.Status != "" {
 				all := map[string]bool{}
